@@ -41,6 +41,8 @@ def decode_value(v: Any) -> Any:
             return getattr(M.load().Color, v["$e"])
         if "$se" in v:
             return getattr(M.load().SKind, v["$se"])
+        if "$nan" in v:
+            return float("nan")
         if "$d" in v:  # a plain dict, keys in the given order
             return {k: decode_value(x) for k, x in v["$d"]}
         if "$ie" in v:  # an IntEnum member (an int by instance, another type by `type()`)
@@ -494,8 +496,10 @@ class TreeGen:
         bombs: bool = False,
         stale_pairs: bool = False,
         noinit: bool = False,
+        nan: bool = False,
     ) -> None:
         self.noinit = noinit
+        self.nan = nan
         self.bombs = bombs
         self.stale_pairs = stale_pairs
         self.extra_leaves = extra_leaves
@@ -533,6 +537,8 @@ class TreeGen:
             if not self.frozensets and f.kind in ("fsint", "fsstr", "fsfs", "tfs"):
                 continue
             d[f.name] = st_value(f.kind, self.strs)
+            if self.nan and f.kind == "float":
+                d[f.name] = st.one_of(d[f.name], st.just({"$nan": 1}))  # (a value that is not equal to itself)
         # optional: a property may be left at its default
         return st.fixed_dictionaries({}, optional=d) if d else st.just({})
 
